@@ -20,7 +20,12 @@
     The destructor table [dt] is the [destructor] column of the key table as it
     is when the thread terminates ([0] = NULL).  It is a total function on [Z]:
     whether a read stays inside the 1024 cells is a theorem about the trace,
-    not a built-in of the model.  [None] = an [assert] of the C code fails. *)
+    not a built-in of the model.  [None] = an [assert] of the C code fails.
+
+    [kg] is the [gen] column of the key table (see Tls/TlsTreeModel.v): with
+    generation tags the leaf loop replaces a value recorded under another
+    incarnation of the index by NULL before it looks at the destructor; the
+    code without tags is the instance [kg = fun _ => 0]. *)
 From Coq Require Import ZArith List Bool.
 From MT Require Import Tls.TlsTreeModel.
 Import ListNotations.
@@ -32,12 +37,14 @@ Inductive ev := ERead (k : Z) | ECall (k v : Z) | EFree (o : origin).
     destructor of cell [k], call it when it is not NULL (also when the value
     is NULL - this is what the code does, and what tests/myth_key_destructor.c
     relies on) *)
-Definition leaf_slot (base : Z) (es : list Z) (dt : Z -> Z) (i : nat) : list ev :=
+Definition leaf_slot (base : Z) (es : list (Z * Z)) (dt kg : Z -> Z) (i : nat) : list ev :=
   let k := base + Z.of_nat i in
-  ERead k :: (if dt k =? 0 then [] else [ECall k (nth i es 0)]).
+  let e := nth i es (0, 0) in
+  let val := if snd e =? kg k then fst e else 0 in
+  ERead k :: (if dt k =? 0 then [] else [ECall k val]).
 
-Definition leaf_loop (base : Z) (es : list Z) (dt : Z -> Z) : list ev :=
-  flat_map (leaf_slot base es dt) (seq 0 (Z.to_nat NLEAF)).
+Definition leaf_loop (base : Z) (es : list (Z * Z)) (dt kg : Z -> Z) : list ev :=
+  flat_map (leaf_slot base es dt kg) (seq 0 (Z.to_nat NLEAF)).
 
 Definition children (n : node) : list node :=
   match n with Inner _ c0 c1 c2 c3 => [c0; c1; c2; c3] | _ => [] end.
@@ -70,7 +77,9 @@ Fixpoint child_loop_old (f : node -> Z -> option (list ev)) (cs : list node) (c_
 
 Section Walks.
   Variable old : bool.       (* true: the walk as it was before 90cf288 *)
-  Variable dt : Z -> Z.
+  Variable c : cfg.          (* layout: size of the embedded pool *)
+  Variable dt : Z -> Z.      (* destructor column *)
+  Variable kg : Z -> Z.      (* generation column *)
 
   Definition loop f cs c_base stride c_stride :=
     if old then child_loop_old f cs c_base stride else child_loop f cs c_base c_stride.
@@ -79,13 +88,13 @@ Section Walks.
   Fixpoint calls_rec (levels : nat) (n : node) (base stride : Z) : option (list ev) :=
     match levels with
     | O => match n with
-           | Leaf _ es => if stride =? NLEAF then Some (leaf_loop base es dt) else None
+           | Leaf _ es => if stride =? NLEAF then Some (leaf_loop base es dt kg) else None
            | _ => None
            end
     | S l => match n with
              | Inner _ _ _ _ _ =>
                  let c_stride := Z.shiftr stride LOGC in
-                 loop (fun c b => calls_rec l c b c_stride) (children n) base stride c_stride
+                 loop (fun ch b => calls_rec l ch b c_stride) (children n) base stride c_stride
              | _ => None
              end
     end.
@@ -94,7 +103,7 @@ Section Walks.
       embedded buffer *)
   Definition node_free (o : origin) : list ev :=
     match o with
-    | Pool off => if (off <? 0) || (off >=? POOL_SZ) then [EFree o] else []
+    | Pool off => if (off <? 0) || (off >=? c_pool c) then [EFree o] else []
     | Heap _ => [EFree o]
     end.
 
@@ -108,7 +117,7 @@ Section Walks.
     | O => Some (flat_map node_free (origin_of n))
     | S l =>
         let c_stride := Z.shiftr stride LOGC in
-        opt_app (loop (fun c b => destroy_rec l c b c_stride) (children n) base stride c_stride)
+        opt_app (loop (fun ch b => destroy_rec l ch b c_stride) (children n) base stride c_stride)
                 (Some (flat_map node_free (origin_of n)))
     end.
 
